@@ -508,7 +508,7 @@ type lifeScript struct {
 	midiin [][]byte
 }
 
-func runScript(s lifeScript, hid int, concurrent bool, withLeds bool) (out []string, returned bool, paniced bool, dt time.Duration) {
+func runScript(s lifeScript, hid int, concurrent bool, withLeds bool, barrier ...*sync.WaitGroup) (out []string, returned bool, paniced bool, dt time.Duration) {
 	v := &vrunner{cfg: s.cfg, axes: map[string]map[evdev.EvCode]evdev.AbsInfo{"": {0: {Minimum: -128, Maximum: 127}}}}
 	l := &ledDev{r: v, evname: fmt.Sprintf("event%d", 100+hid), hidraw: hid, devName: "fake", leds: lifeLeds, ncolors: len(lifeLeds)}
 	if !withLeds {
@@ -563,6 +563,11 @@ func runScript(s lifeScript, hid int, concurrent bool, withLeds bool) (out []str
 		if concurrent && e[2] > 0 {
 			time.Sleep(time.Duration(e[2]) * time.Microsecond)
 		}
+	}
+	if len(barrier) > 0 && barrier[0] != nil {
+		// all devices of this run are unplugged at the same moment (a hub pulled, the application shutting down)
+		barrier[0].Done()
+		barrier[0].Wait()
 	}
 	returned, dt = l.stop(2 * time.Second)
 	close(stopMidi)
@@ -642,11 +647,16 @@ func lifeRun(seed int64, n int, nextHid *int, aloneOnly bool) string {
 	var wg sync.WaitGroup
 	hid0 := *nextHid
 	*nextHid += n
+	var together *sync.WaitGroup
+	if seed%2 == 0 && n > 1 {
+		together = &sync.WaitGroup{}
+		together.Add(n)
+	}
 	for i := range scripts {
 		wg.Add(1)
 		go func(i int) {
 			defer wg.Done()
-			o, r, p, dt := runScript(scripts[i], hid0+1+i, true, i%4 != 3)
+			o, r, p, dt := runScript(scripts[i], hid0+1+i, true, i%4 != 3, together)
 			conc[i] = res{o, r, p, dt}
 		}(i)
 	}
